@@ -922,6 +922,45 @@ fn check_config_door(scene: &Scene, flags: u32, discard: Discard, kind: TargetKi
     r.nontrivial();
 }
 
+/// The depth predicate, fragment by fragment: the depth buffer is primed, pixel by pixel, with the fragment's own depth moved
+/// by -2 .. +2 ulps (the fragment's depth = what a test-less run writes there), then the triangle is drawn under each
+/// predicate. A fragment passes - colour and depth written, counted in frags.o - exactly when its depth compares to the
+/// stored one as the predicate says (Less: nearer, i.e. the larger reciprocal; Equal: the same float), and otherwise
+/// leaves the pixel as primed.
+fn check_depth_predicate(scene: &Scene, kind: TargetKind, door: Door, shift: usize, r: &mut Report) {
+    r.eval();
+    let case = || obj! {"kind" => "depth-pred", "scene" => scene_json(scene), "target" => format!("{kind:?}"), "door" => format!("{door:?}"), "shift" => shift};
+    let tag = format!("{kind:?}|{door:?}|{}", short(scene));
+    let px = (scene.bw * scene.bh) as usize;
+    let free = Context { depth_test: None, ..ctx_plain() };
+    let base = match render_scene(scene, None, door, kind, &free, Discard::Never, None) { Ok(b) => b, Err(p) => { r.violation(format!("render-panic|depth-pred|{tag}"), p, case()); return; } };
+    let fd = base.depth.as_ref().unwrap();
+    let covered: Vec<bool> = (0..px).map(|p| base.color[p] != color_sentinel(p)).collect();
+    if !covered.iter().any(|c| *c) { r.h("depth-pred:nothing-drawn"); return; }
+    let delta = |p: usize| [-2i32, -1, 0, 1, 2][(p + shift) % 5];
+    let pc: Vec<u32> = (0..px).map(color_sentinel).collect();
+    let pd: Vec<f32> = (0..px).map(|p| if covered[p] && fd[p].is_finite() && fd[p] > 0.0 { f32::from_bits((fd[p].to_bits() as i32 + delta(p)) as u32) } else { depth_sentinel(p) }).collect();
+    for pred in [Ordering::Less, Ordering::Greater, Ordering::Equal] {
+        let ctx = Context { depth_test: Some(pred), ..ctx_plain() };
+        let out = match render_scene(scene, None, door, kind, &ctx, Discard::Never, Some((&pc, &pd))) { Ok(o) => o, Err(p) => { r.violation(format!("render-panic|depth-pred|{tag}"), p, case()); return; } };
+        let od = out.depth.as_ref().unwrap();
+        let mut passes = 0usize;
+        for p in 0..px {
+            if !covered[p] { continue; }
+            // reciprocal depths: the nearer fragment has the larger value
+            let pass = match pred { Ordering::Less => fd[p] > pd[p], Ordering::Greater => fd[p] < pd[p], Ordering::Equal => fd[p] == pd[p] };
+            if pass { passes += 1; }
+            let (wc, wd) = if pass { (base.color[p], fd[p]) } else { (pc[p], pd[p]) };
+            if out.color[p] != wc || od[p].to_bits() != wd.to_bits() {
+                r.violation(format!("depth-predicate|{pred:?}|{}ulp|{tag}", delta(p)), format!("depth test {pred:?}: pixel {p} primed with the fragment's depth {:e} moved by {} ulp ({:e}) - the fragment must {}, but the pixel holds colour {:#x} depth {:e} (expected {wc:#x}, {wd:e})", fd[p], delta(p), pd[p], if pass { "pass" } else { "fail" }, out.color[p], od[p]), case());
+                return;
+            }
+        }
+        if out.stats.frags.o != passes { r.violation(format!("stats|frags.o|depth-predicate|{pred:?}|{tag}"), format!("depth test {pred:?}: {passes} fragments pass the test and are written, frags.o = {}", out.stats.frags.o), case()); return; }
+    }
+    r.nontrivial();
+}
+
 /// Culling of triangles far smaller than a pixel that still contain a pixel centre (by more than 0.002 px): whether a
 /// fragment appears is C04's business (it must, the centre is inside), so exactly one vertex order may draw it.
 fn check_cull_small(cx: u32, cy: u32, size: f32, shape: usize, kind: TargetKind, r: &mut Report) { check_cull_small_in(8, 8, cx, cy, size, shape, kind, r) }
@@ -1105,6 +1144,9 @@ fn run_config(cfg: &Cfg) -> ! {
     // primitives like any other
     for k in [0usize, 1, 5, 7] { let t = &pool[k]; for (a, b) in [(1usize, 0usize), (2, 0), (2, 1)] { let mut d = t.clone(); d.v[a] = d.v[b]; d.a[a] = d.a[b]; scenes.push(Scene { tris: vec![d.clone()], bw: 8, bh: 8, vp: (0, 0, 8, 8) }); scenes.push(Scene { tris: vec![pool[2].clone(), d.clone(), pool[0].clone(), d], bw: 8, bh: 8, vp: (0, 0, 8, 8) }); } }
     scenes.push(Scene { tris: vec![], bw: 4, bh: 4, vp: (0, 0, 4, 4) });
+    // viewports without width, height or both: nothing can be drawn, and the call is a call like any other (through the camera
+    // door the same rectangles arrive as requests to Camera::viewport)
+    for (k, vp) in [(3u32, 3u32, 3u32, 6u32), (2, 5, 6, 5), (8, 0, 8, 4), (4, 4, 4, 4), (0, 8, 5, 8)].into_iter().enumerate() { scenes.push(Scene { tris: vec![pool[k].clone()], bw: 8, bh: 8, vp }); scenes.push(Scene { tris: vec![pool[1].clone(), pool[k + 2].clone()], bw: 8, bh: 8, vp }); }
     // scale sentinels: hundreds of triangles in one call (counters beyond 255), and a wide buffer (columns beyond 255)
     scenes.push(Scene { tris: (0..300).map(|k| pool[k % pool.len()].clone()).collect(), bw: 8, bh: 8, vp: (0, 0, 8, 8) });
     scenes.push(Scene { tris: (0..70).map(|k| pool[(k * 5) % pool.len()].clone()).collect(), bw: 300, bh: 4, vp: (0, 0, 300, 4) });
@@ -1131,6 +1173,12 @@ fn run_config(cfg: &Cfg) -> ! {
         if sc.vp.0 > sc.vp.2 { return; } // mirrored viewports only for the culling check
         check_config_door(sc, f, [Discard::Never, Discard::Always, Discard::Parity][d as usize], [TargetKind::Owned, TargetKind::ColorOnly][k as usize], DOORS[((s + f as u64 + d) % 3) as usize], r);
     }));
+    // the depth predicate against stored depths within two ulps of the fragment's own: single-triangle scenes x doors x shifts
+    {
+        let singles: Vec<&Scene> = scenes.iter().filter(|s| s.tris.len() == 1 && s.vp.0 <= s.vp.2).collect();
+        let n1 = singles.len() as u64;
+        rep.merge(par_range(cfg, n1 * 3 * 5 * 2, |i, r| check_depth_predicate(singles[(i % n1) as usize], [TargetKind::Owned, TargetKind::SubView][(i / n1 / 15) as usize], DOORS[(i / n1 % 3) as usize], (i / n1 / 3 % 5) as usize, r)));
+    }
     if !quick { let mut r = Report::new(); check_calls_at_scale(&mut r); rep.merge(r); }
     // culling: every visible pool/lattice triangle x viewports incl. axis-mirrored ones x target kinds
     let mut tris: Vec<STri> = pool.clone();
@@ -1188,6 +1236,7 @@ fn main() {
                 }
                 "order" | "painter" => explore_order(&scene_from(c.get("scene").unwrap()), r, 0, if c.get("discard").and_then(|j| j.as_str()) == Some("Parity") { Discard::Parity } else { Discard::Never }),
                 "config" => check_config_door(&scene_from(c.get("scene").unwrap()), c.get("flags").unwrap().as_u64().unwrap() as u32, match c.get("discard").and_then(|j| j.as_str()).unwrap_or("") { "Always" => Discard::Always, "Parity" => Discard::Parity, _ => Discard::Never }, kind(c), match c.get("door").and_then(|j| j.as_str()).unwrap_or("") { "Batch" => Door::Batch, "Camera" => Door::Camera, _ => Door::Render }, r),
+                "depth-pred" => check_depth_predicate(&scene_from(c.get("scene").unwrap()), kind(c), match c.get("door").and_then(|j| j.as_str()).unwrap_or("") { "Batch" => Door::Batch, "Camera" => Door::Camera, _ => Door::Render }, c.get("shift").and_then(|j| j.as_u64()).unwrap_or(0) as usize, r),
                 "accum" => { let pool = order_pool(); check_accumulation(&scene_from(c.get("scene").unwrap()), 0, &pool[10], r) }
                 "solid" => check_solid_culling(c.get("solid").unwrap().as_u64().unwrap() as usize, c.get("view").unwrap().as_u64().unwrap() as usize, r),
                 "cull" => { let s = scene_from(c.get("scene").unwrap()); check_cull(&s.tris[0], s.bw, s.bh, s.vp, kind(c), r) }
